@@ -1,6 +1,7 @@
 package flood
 
 const (
-	c12N         = 4
-	c12Announcers = 1
+	c12N              = 4
+	c12LateAnnouncers = 3
+	c12Announcers     = 1
 )
